@@ -61,3 +61,15 @@ Definition lin_wit_evs : list event :=
    Ev 2 (mkCh false false 0); Ev 3 (mkCh false false 0); Ev 4 (mkCh false false 0); Ev 4 (mkCh false false 0);
    Ev 2 (mkCh false false 0); Ev 2 (mkCh false false 0); Ev 2 (mkCh false false 0); Ev 2 (mkCh false false 0);
    Ev 2 (mkCh false false 0); Ev 4 (mkCh false false 0)].
+
+(* failure-free run, 3 replicas, 1 client: Put(KEY1,v1) replicated to both backups, primary at sndResp *)
+Definition nv_cfg : config := mkCfg 3 1 false.
+Definition nv_input : list cmsg := [put "KEY1" "v1"; get "KEY1"].
+Definition ch0 : choice := mkCh false false 0.
+Definition nv_evs : list event :=
+  map (fun p => Ev p ch0)
+      [1; 1; 2; 2; 3; 3;        (* replicas reach rcvMsg *)
+       4; 4;                    (* client: clientLoop, sndReq *)
+       1; 1; 1; 1; 1; 1;        (* primary: rcvMsg, handlePrimary, sndReplicaReqLoop x4 *)
+       2; 2; 3; 3;              (* backups: rcvMsg, handleBackup *)
+       1; 1; 1].                (* primary: two acks, then replicaSet empty -> sndResp *)
